@@ -202,9 +202,25 @@ func subjects() []*subject {
 	// 4. circuit breaker (error count 1, retry 1000 ms): open / half-open state and deadline
 	// second variant: a bucket count that does not divide the interval (the breaker then uses one bucket); the
 	// rule as written is what "field-for-field identical" refers to
-	for _, buckets := range []uint32{0, 3} {
-		buckets := buckets
+	// third variant: the same breaker as an error-ratio rule (one failing request is a ratio of 1 >= 0.5); its
+	// never-tripping relatives differ in the minimum request amount instead of the threshold
+	for _, variant := range []int{0, 3, -1} {
+		buckets, ratio := uint32(0), variant < 0
+		if variant > 0 {
+			buckets = uint32(variant)
+		}
+		never := func(r *cb.Rule, id string, v float64) {
+			r.Id = id
+			if ratio {
+				r.MinRequestAmount = uint64(v)
+			} else {
+				r.Threshold = v
+			}
+		}
 		bx := func() *cb.Rule {
+			if ratio {
+				return &cb.Rule{Id: "X", Resource: "r", Strategy: cb.ErrorRatio, RetryTimeoutMs: 1000, MinRequestAmount: 1, StatIntervalMs: 5000, Threshold: 0.5}
+			}
 			return &cb.Rule{Id: "X", Resource: "r", Strategy: cb.ErrorCount, RetryTimeoutMs: 1000, MinRequestAmount: 1, StatIntervalMs: 5000, StatSlidingWindowBucketCount: buckets, Threshold: 1}
 		}
 		cbRules := func(edit string) []*cb.Rule {
@@ -216,17 +232,17 @@ func subjects() []*subject {
 					r = bx()
 				case "X'":
 					r = bx()
-					r.Id, r.Threshold = "X'", 1e9
+					never(r, "X'", 1e9)
 				case "Y":
 					r = &cb.Rule{Id: "Y", Resource: "r", Strategy: cb.ErrorCount, RetryTimeoutMs: 1000, MinRequestAmount: 1, StatIntervalMs: 2000, Threshold: 1e9}
 				case "Y'":
 					r = &cb.Rule{Id: "Y", Resource: "r", Strategy: cb.ErrorCount, RetryTimeoutMs: 1000, MinRequestAmount: 1, StatIntervalMs: 2000, Threshold: 2e9}
 				case "W":
 					r = bx()
-					r.Id, r.Threshold = "W", 5e8
+					never(r, "W", 5e8)
 				case "W'":
 					r = bx()
-					r.Id, r.Threshold = "W", 6e8
+					never(r, "W", 6e8)
 				default:
 					panic("unknown rule name " + n)
 				}
@@ -235,7 +251,7 @@ func subjects() []*subject {
 			return out
 		}
 		out = append(out, &subject{
-			Name: map[uint32]string{0: "circuit-breaker", 3: "circuit-breaker-odd-buckets"}[buckets],
+			Name: map[int]string{0: "circuit-breaker", 3: "circuit-breaker-odd-buckets", -1: "circuit-breaker-error-ratio"}[variant],
 			Ops:  []string{"req-ok", "req-err", "start", "finish-ok", "tick(400)", "tick(1000)"},
 			Apply: func(st *runState, op int) string {
 				switch op {
@@ -284,8 +300,12 @@ func subjects() []*subject {
 					panic(err)
 				}
 			},
-			Init:   []string{"[X]", "[Y,X]"},
-			Edits:  []string{"[X]", "[Y,X]", "[X,Y]", "[Y',X]", "[X,X]", "[X',X]", "[X,X']"},
+			Init: []string{"[X]", "[Y,X]"},
+			// the duplicate [X,X] only for the count breakers: the second copy is a NEW breaker with empty statistics,
+			// and an error-ratio breaker with fewer requests behind it legitimately trips earlier than the old one
+			// (1 of 2 instead of 1 of 3); a count breaker trips on the same request with or without the older ones
+			Edits: map[bool][]string{false: {"[X]", "[Y,X]", "[X,Y]", "[Y',X]", "[X,X]", "[X',X]", "[X,X']"},
+				true: {"[X]", "[Y,X]", "[X,Y]", "[Y',X]", "[X',X]", "[X,X']"}}[ratio],
 			Others: []string{"Y", "Y'", "W", "W'", "X'"},
 		})
 	}
@@ -567,7 +587,7 @@ func run(c *props.Ctx) {
 	c.R.Traces = c.R.Evaluations
 	if c.Shard == 0 {
 		keepsStatistics(c)
-	keepsStatisticsRatio(c)
+		keepsStatisticsRatio(c)
 		stepwiseEqualsAtOnce(c)
 	}
 }
